@@ -49,8 +49,15 @@ var c06NamesEngine = sync.OnceValue(func() *liquid.Engine {
 			return "<" + n + ":" + s + ">", nil
 		})
 	}
+	// plain (leaf) tags of the application whose names begin with "end" or with a block name: ordinary tags wherever they stand
+	for _, n := range c06LeafNames {
+		n := n
+		e.RegisterTag(n, func(ctx render.Context) (string, error) { return "(" + n + ")", nil })
+	}
 	return e
 })
+
+var c06LeafNames = []string{"endnote", "ender", "end", "iffy2", "endifx", "forward", "endcasex"}
 
 func (f c06Form) render(inner string) string {
 	switch {
@@ -66,7 +73,28 @@ func (f c06Form) render(inner string) string {
 
 func c06NamesFamily() explore.Family {
 	F := len(c06NameForms)
-	return explore.Family{Name: "block-names-containing-other-block-names", Count: int64(F * F * 4), Run: func(i int64, r *explore.Rec) {
+	return explore.Family{Name: "block-names-containing-other-block-names", Count: int64(F*F*4 + F*len(c06LeafNames)), Run: func(i int64, r *explore.Rec) {
+		if i >= int64(F*F*4) {
+			// a leaf tag named like an end tag inside (and next to) every block form
+			j := int(i) - F*F*4
+			x, leaf := c06NameForms[j/len(c06LeafNames)], c06LeafNames[j%len(c06LeafNames)]
+			src := "{% " + leaf + " %}" + x.open + "a{% " + leaf + " 1 %}b" + x.close + "{% " + leaf + " %}"
+			inner := "a(" + leaf + ")b"
+			if x.opaque {
+				inner = ""
+			}
+			want := "(" + leaf + ")" + x.render(inner) + "(" + leaf + ")"
+			r.Eval()
+			r.Transition()
+			r.Trace()
+			o := Render(c06NamesEngine(), src, map[string]any{})
+			r.Class("leaf-names/" + o.Class())
+			r.State("names:leaf")
+			if o.Panic != nil || o.Err != nil || o.Out != want {
+				r.Violation("block-names:leaf-tag-named-like-an-end-tag", map[string]any{"template": src, "block": x.name, "tag": leaf}, want, o.String())
+			}
+			return
+		}
 		rx := radix{i}
 		shape, y, x := rx.next(4), c06NameForms[rx.next(F)], c06NameForms[rx.next(F)]
 		if !x.custom && !y.custom {
